@@ -193,3 +193,50 @@ func runC05(c *Ctx) {
 	}
 	_ = sort.Strings
 }
+
+// R6: what counts as a torn write. A CRC or unmarshal failure is forgiven (reported as an unexpected end of file, which
+// Repair truncates and read-mode accepts) only when isTornEntry says so; everything else must stay a hard error, or a
+// bit flip in a synced record is silently cut off. isTornEntry may say "torn" only for a record a whole sector chunk of
+// which is zero: every `return true` lies under the all-zero flag of a chunk of the record's own bytes, the flag is
+// lowered by any non-zero byte, and only the last file's tail qualifies.
+func c05R6(c *Ctx) {
+	r := c.R
+	r.Clause("C05-R6", "a record is forgiven as torn only when one of its own sector chunks is all zero")
+	u := c.unit("C05-R6", "wal.(*decoder).isTornEntry")
+	if u == nil {
+		return
+	}
+	r.Returns("C05-R6", u, []an.ReturnClass{
+		{Name: "torn", Match: func(u *an.Unit, s *an.Site) bool { return u.C.Term(s.Ret.Results[0]) == "true" }, Guard: "isZero && 1 == len(recv.brs)"},
+		{Name: "not torn", Match: func(u *an.Unit, s *an.Site) bool { return u.C.Term(s.Ret.Results[0]) == "false" }},
+	}, 3)
+	// the flag: raised per chunk, lowered by any non-zero byte of the chunk
+	for _, s := range u.Match(an.LocalStore("isZero")) {
+		if s.RHS == nil {
+			continue
+		}
+		switch u.C.Term(s.RHS) {
+		case "true":
+			r.Ok("C05-R6", u.Name+": the all-zero flag starts raised for every chunk", u.Pos(s.Pos), "")
+		case "false":
+			r.GuardSite("C05-R6", u, s, c.W.Parse("v != 0"), "lowered exactly by a non-zero byte")
+		default:
+			r.Bad("C05-R6", u.Name+": the all-zero flag is only set to constants", u.Pos(s.Pos), "value "+u.C.Term(s.RHS))
+		}
+	}
+	// the chunks are slices of the record's bytes
+	r.StoreValues("C05-R6", u, an.LocalStore("chunks"), []string{"[][]byte{}", "append(chunks, p0[curOff:(chunkLen + curOff)])"}, 2)
+	// callers: a failure is turned into ErrUnexpectedEOF only under isTornEntry
+	if du := c.unit("C05-R6", "wal.(*decoder).decodeRecord"); du != nil {
+		for _, s := range du.Sites {
+			if s.Kind == flow.SReturn && len(s.Ret.Results) == 1 && du.C.Term(s.Ret.Results[0]) == "io.ErrUnexpectedEOF" {
+				r.GuardSite("C05-R6", du, s, c.W.Parse("recv.isTornEntry(data)"), "a validation failure is reported as a short file only for a torn record")
+			}
+		}
+	}
+}
+
+func init() {
+	old := registry["C05"].Run
+	registry["C05"].Run = func(c *Ctx) { old(c); c05R6(c) }
+}
